@@ -3,7 +3,7 @@
    specification (headers, versions, streams) in Proofs/XfrSpec.v. *)
 From DV Require Import Base.Prelude Model.XfrM Proofs.XfrSpec.
 From DV Require Proofs.XfrZone Proofs.XfrDiff.
-From DV Require Proofs.XfrSafety Proofs.XfrBasic Proofs.XfrIxfr Proofs.XfrAxfr Proofs.XfrFault Proofs.XfrOrder Proofs.XfrRefresh Proofs.XfrGlue Proofs.XfrTsig Proofs.XfrSections Proofs.XfrGroup.
+From DV Require Proofs.XfrSafety Proofs.XfrBasic Proofs.XfrIxfr Proofs.XfrAxfr Proofs.XfrFault Proofs.XfrOrder Proofs.XfrRefresh Proofs.XfrGlue Proofs.XfrTsig Proofs.XfrSections Proofs.XfrGroup Proofs.XfrSoaFaults.
 From Coq Require Import Sorting.Permutation.
 
 (* Whatever is received (any messages, any records, any chunking, any fault), if the transfer ends
@@ -292,6 +292,76 @@ Theorem ixfr_altered_addition : forall fin pre c A1 a a' A2 z0 z1 z2 ser ws1 ws2
     forall k, rkey a <> k -> rkey a' <> k -> look zf2 k = look zf1 k.
 Proof. exact XfrSections.ixfr_altered_addition. Qed.
 Print Assumptions ixfr_altered_addition.
+
+(* ---- SOA records out of place (dropped, duplicated, swapped SOAs).  After any number of well-formed
+        sections pre and records P taken as additions, an SOA b whose serial is not the current one is
+        rejected: base serial mismatch, or - when b is the announced SOA - unexpected end / empty IXFR
+        sequence (XfrSoaFaults.mis_code).  Zone untouched, any division into messages. ---- *)
+Theorem ixfr_soa_out_of_place : forall fin pre P b rest z0 z1 ser ws,
+  XfrSections.skel_ok ser fin pre -> XfrSections.apply_secs z0 pre = Some z1 ->
+  Forall XfrGlue.okrec P -> (pre <> [] \/ P = []) ->
+  v_serial b <> XfrSections.end_serial ser pre ->
+  v_serial fin <> ser -> serial_lt (v_serial fin) ser = false ->
+  chunking tIXFR (soa_rr fin :: XfrSections.secs_stream pre ++ P ++ soa_rr b :: rest) ws ->
+  exists n, inbound_xfr z0 tIXFR (Some ser) false ws =
+            (Error (XfrSoaFaults.mis_code fin b (match pre with [] => true | _ => false end)) z0, n).
+Proof. exact XfrSoaFaults.ixfr_soa_out_of_place. Qed.
+Print Assumptions ixfr_soa_out_of_place.
+
+(* instances on a valid response v0 -> ... -> a -> b -> ... -> vn (consecutive serials differ):
+   the SOA that starts the deletion section a -> b is dropped ... *)
+Theorem ixfr_dropped_section_soa_rejected : forall v0 c1 b c2,
+  chain_ok v0 (c1 ++ b :: c2) -> v_serial b <> v_serial (last c1 v0) ->
+  forall z0 ws, c1 <> [] -> zeq z0 (zone_of v0) ->
+  chunking tIXFR (soa_rr (last (c1 ++ b :: c2) v0) :: diff_seqs v0 c1 ++
+                  zminus (v_rest (last c1 v0)) (v_rest b) ++
+                  soa_rr b :: zminus (v_rest b) (v_rest (last c1 v0)) ++ diff_seqs b c2 ++
+                  [soa_rr (last (c1 ++ b :: c2) v0)]) ws ->
+  exists n, inbound_xfr z0 tIXFR (Some (v_serial v0)) false ws =
+            (Error (XfrSoaFaults.mis_code (last (c1 ++ b :: c2) v0) b false) z0, n).
+Proof. exact XfrSoaFaults.ixfr_dropped_section_soa_rejected. Qed.
+Print Assumptions ixfr_dropped_section_soa_rejected.
+
+(* ... or sent twice (also the very first one, c1 = []) *)
+Theorem ixfr_duplicated_section_soa_rejected : forall v0 c1 b c2,
+  chain_ok v0 (c1 ++ b :: c2) -> v_serial b <> v_serial (last c1 v0) ->
+  forall z0 rest ws, zeq z0 (zone_of v0) ->
+  chunking tIXFR (soa_rr (last (c1 ++ b :: c2) v0) :: diff_seqs v0 c1 ++
+                  soa_rr (last c1 v0) :: soa_rr (last c1 v0) :: zminus (v_rest (last c1 v0)) (v_rest b) ++
+                  soa_rr b :: rest) ws ->
+  exists n, inbound_xfr z0 tIXFR (Some (v_serial v0)) false ws =
+            (Error (XfrSoaFaults.mis_code (last (c1 ++ b :: c2) v0) b false) z0, n).
+Proof. exact XfrSoaFaults.ixfr_duplicated_section_soa_rejected. Qed.
+Print Assumptions ixfr_duplicated_section_soa_rejected.
+
+(* the first SOA sent twice *)
+Theorem ixfr_duplicated_first_soa_rejected : forall fin rest z0 ser ws,
+  v_serial fin <> ser -> serial_lt (v_serial fin) ser = false ->
+  chunking tIXFR (soa_rr fin :: soa_rr fin :: rest) ws ->
+  exists n, inbound_xfr z0 tIXFR (Some ser) false ws = (Error eEmptyIXFR z0, n).
+Proof. exact XfrSoaFaults.ixfr_duplicated_first_soa_rejected. Qed.
+Print Assumptions ixfr_duplicated_first_soa_rejected.
+
+(* the first SOA dropped or swapped with the next one: the response then starts with an SOA carrying
+   the client's serial (the up-to-date shape); anything after it in the same message is rejected, and
+   alone it is the up-to-date answer (uptodate_noop): the zone is not touched on this path *)
+Theorem uptodate_surplus_rejected : forall z ser udp w ws r0 y rest,
+  header_ok tIXFR w -> w_records w = r0 :: y :: rest -> apex_soa r0 ->
+  r_data r0 mod two32 = ser ->
+  inbound_xfr z tIXFR (Some ser) udp (w :: ws) = (Error eAfterFinal z, 0%nat).
+Proof. exact XfrSoaFaults.uptodate_surplus_rejected. Qed.
+Print Assumptions uptodate_surplus_rejected.
+
+(* records after the final SOA of a complete valid response (a duplicated final SOA, anything):
+   rejected when they come in the message of the final SOA, never read otherwise *)
+Theorem ixfr_surplus_after_final : forall v0 chain z0 y extra ws,
+  chain_ok v0 chain -> zeq z0 (zone_of v0) ->
+  chunking tIXFR (ixfr_stream v0 chain ++ y :: extra) ws ->
+  exists n, inbound_xfr z0 tIXFR (Some (v_serial v0)) false ws = (Error eAfterFinal z0, n)
+         \/ exists z', inbound_xfr z0 tIXFR (Some (v_serial v0)) false ws = (Done z', n)
+                       /\ zeq z' (zone_of (last chain v0)).
+Proof. exact XfrSoaFaults.ixfr_surplus_after_final. Qed.
+Print Assumptions ixfr_surplus_after_final.
 
 (* ---- the parser's RRset grouping (dns.message, xfr=True): what process_message gets to see ---- *)
 
